@@ -17,7 +17,7 @@ func c11Plan(tier string) histPlan {
 	if tier == "thorough" {
 		return histPlan{Enum: gen.EnumParams{MaxAdds: []int{6, 4, 3}}, Rand: 300000, Tall: 200}
 	}
-	return histPlan{Enum: gen.EnumParams{MaxAdds: []int{4, 3, 2}}, Rand: 6000, Tall: 4}
+	return histPlan{Enum: gen.EnumParams{MaxAdds: []int{4, 3, 2}}, Rand: 12000, Tall: 8}
 }
 
 func init() {
